@@ -65,7 +65,10 @@ def init_cases(draw):
     c = {"init": name, "shape": draw(big_shape(2 if fan_based else 1)),
          "dtype": draw(st.sampled_from(["float32", "float32", "float64"])),
          "rg": draw(st.booleans()), "seed": draw(st.integers(0, 2 ** 31 - 1)),
-         "layout": draw(st.sampled_from(["C", "C", "F", "strided", "transposed_view"]))}
+         "layout": draw(st.sampled_from(["C", "C", "F", "strided", "transposed_view"])),
+         # the global modes in force while the initialiser runs (initialising under no_grad is the usual idiom)
+         "ambient": draw(st.sampled_from(["none", "none", "no_grad", "no_grad", "retain_grads"])),
+         "param": draw(st.booleans())}
     if name == "uniform_":
         lo = draw(st.sampled_from([0.0, -1.0, -0.05, 2.0]))
         c["a"], c["b"] = lo, lo + draw(st.sampled_from([1.0, 0.1, 3.0]))
@@ -127,11 +130,26 @@ def check_init(c, rec):
     elif lay == "transposed_view" and len(shp) >= 2:
         base = np.full(shp[::-1], 123.0, dtype=dt).T
     t = Tensor(base, requires_grad=c["rg"])
+    if c.get("param") and c["rg"]:
+        t = sg.nn.Parameter(t)
+        rec.tag("nn.Parameter")
     ctx = f"{c}"
     fan_in = shp[1] * int(np.prod(shp[2:])) if len(shp) >= 2 else None
     fan_out = shp[0] * int(np.prod(shp[2:])) if len(shp) >= 2 else None
     sg.manual_seed(c["seed"])
-    fn = getattr(init, name)
+    raw_fn = getattr(init, name)
+    amb = c.get("ambient", "none")
+    rec.tag("ambient_" + amb)
+
+    def fn(*a, **k):
+        if amb == "no_grad":
+            with sg.no_grad():
+                return raw_fn(*a, **k)
+        if amb == "retain_grads":
+            with sg.retain_grads():
+                return raw_fn(*a, **k)
+        return raw_fn(*a, **k)
+
     if name == "uniform_":
         ret = fn(t) if c["defaults"] else fn(t, c["a"], c["b"])
         lo, hi = (0.0, 1.0) if c["defaults"] else (c["a"], c["b"])
